@@ -58,7 +58,7 @@ ALPHABET = {
     "ragged": [["PS-A", row([8, 16])], ["PS-B", row([8])]],
 }
 MALFORMED = {"unknown": KeyError, "ragged": InvalidScheduleError}
-QUICK = ["empty", "A1", "A3", "AB", "BA", "all2", "all2p", "vacantC", "long9", "ndarr", "unknown", "ragged"]
+QUICK = ["empty", "A1", "A3", "AB", "BA", "all2", "all2p", "vacantC", "long9", "ndarr", "zeros", "unknown", "ragged"]
 THOROUGH = list(ALPHABET)
 
 SETUPS = {
